@@ -24,6 +24,20 @@ def ctor(crate):
     return mir.inline_view(crate, bs[0], keep=("cost", "class_nf", "lookup", "usages", "enodes", "ids"))
 
 
+from .c04 import BAD_ADAPTORS as C04_BAD
+
+
+def _deep_names(crate, r):
+    """names of the calls in a role and inside the closures it mentions"""
+    out = set()
+    for x in role_walk(r) if r is not None else ():
+        if isinstance(x, tuple) and x[0] == "call":
+            out.add(x[1])
+        if isinstance(x, tuple) and x[0] == "agg" and isinstance(x[1], str) and x[1] in crate.bodies:
+            out |= {c.callee.name for sub in crate.bodies[x[1]].all_bodies() for c in sub.calls if c.callee}
+    return out
+
+
 def _class_not_final(r):
     """`match eg.lookup(&x) { Some(i) => map.contains_key(&i.id), None => false }`: false unless the node's class is final"""
     r = strip_role(r) if r is not None else None
@@ -53,6 +67,30 @@ def x0(ctx):
             if (k == "pop" and cs and cs.callee.name == "pop") or (k != "pop" and role_mentions_call(it, k) and not any(role_mentions_call(it, k2) for k2 in ("enodes", "usages") if k2 != k and k == "ids")):
                 if want[k] is None:
                     want[k] = lp
+    # adaptor form of the seeding: `for leaf in ids().into_iter().flat_map(|id| enodes(id)).filter(|x| no children)`
+    def chain_of(lp):
+        out = []
+        r = strip_role(lp[1])
+        while isinstance(r, tuple) and r[0] == "call" and r[3]:
+            out.append((r[1], C._closure_of_role(crate, r[3][1]) if len(r[3]) > 1 else None))
+            r = strip_role(r[3][0])
+        return out
+    leaf_filter_loops = set()
+    for lp in loops:
+        ch = chain_of(lp)
+        for n_, cl in ch:
+            if n_ in ("flat_map", "map") and hasattr(cl, "calls"):
+                for k in ("enodes", "usages"):
+                    if want[k] is None and any(c.callee and c.callee.name == k for c in cl.calls):
+                        want[k] = lp
+            if n_ == "filter" and hasattr(cl, "calls"):
+                rr = strip_role(cl.role_of_local(0))
+                if isinstance(rr, tuple) and rr[0] == "call" and rr[1] == "is_empty" and role_mentions_call(rr, "applied_id_occurrences"):
+                    leaf_filter_loops.add(lp[0])
+                else:
+                    ctx.bad("seed-filter:%s" % role_str(rr)[:40], "the seeding chain of Extractor::new drops e-nodes through filter(%s): only 'the node has no children' may filter the seeds" % role_str(rr)[:80], where_of(b, lp[0]))
+            elif n_ in C04_BAD and n_ != "filter":
+                ctx.bad("seed-adaptor:" + n_, "the seeding chain of Extractor::new goes through %s: candidate e-nodes are dropped" % n_, where_of(b, lp[0]))
     for k, lp in want.items():
         if lp is None:
             ctx.bad("loop-missing:" + k, "Extractor::new has no loop over %s" % k, where_of(b))
@@ -89,8 +127,15 @@ def x0(ctx):
                 allowed += 1
             elif kind == "false" and _class_not_final(cond_role.get(txt)):
                 allowed += 1
+            elif kind == "false" and txt.startswith("is_some_and(lookup(") and "contains_key" in _deep_names(crate, cond_role.get(txt)):
+                allowed += 1
             else:
                 ctx.bad("push-extra-guard:%d:%s" % (i, txt[:40]), "heap push #%d in Extractor::new is additionally guarded by %s %s — candidates can be dropped" % (i, kind, txt), where_of(b, c.bb))
+        # the leaf test may sit in a filter of the loop's iterator instead of an `if`
+        if allowed == 0:
+            for lp in loops:
+                if lp[0] in leaf_filter_loops and c.bb in b.reach(lp[3], avoid=lp[2]):
+                    allowed += 1
         ctx.check(allowed >= 1, "push-guards:%d" % i, "heap push #%d is guarded only by the leaf / all-children-final / class-not-final tests" % i,
                   "heap push #%d has lost its guard" % i, where_of(b, c.bb))
 
@@ -170,6 +215,17 @@ def x3(ctx):
             # leaf seeding: the node has no children
             conds = C.conditions_at(b, c.bb)
             ok = any(cond[0] == "true" and role_str(cond[1]).startswith("is_empty(applied_id_occurrences") for e, cond in conds)
+            if not ok:
+                # the guard as a filter of the seeding loop's iterator
+                for lp in C.iterator_loops(b):
+                    r_ = strip_role(lp[1])
+                    while isinstance(r_, tuple) and r_[0] == "call" and r_[3]:
+                        cl_ = C._closure_of_role(crate, r_[3][1]) if len(r_[3]) > 1 else None
+                        if r_[1] == "filter" and hasattr(cl_, "calls") and c.bb in b.reach(lp[3], avoid=lp[2]):
+                            rr = strip_role(cl_.role_of_local(0))
+                            if isinstance(rr, tuple) and rr[0] == "call" and rr[1] == "is_empty" and role_mentions_call(rr, "applied_id_occurrences"):
+                                ok = True
+                        r_ = strip_role(r_[3][0])
             ctx.check(ok, "leaf-cost-guard", "the seeding cost() call is guarded by 'node has no children'",
                       "cost() is called with a panicking child-cost closure on a node that may have children", where_of(b, c.bb))
             continue
